@@ -91,16 +91,16 @@ report the list of refactorings, the suite result and both digests.
 '''
 
 TARGETS = {
-    'B21': 'pyx12/x12file.py (classes X12Base, X12Reader, X12Writer).  Prefer LARGE structural refactorings here: split _parse_segment into one private method per segment id, table-driven dispatch, merged duplicated blocks',
-    'B22': 'pyx12/map_walker.py and pyx12/nodeCounter.py.  Prefer LARGE structural refactorings: split walk() into private helpers, early returns, merged duplicated blocks',
-    'B23': 'pyx12/map_if.py: the is_valid methods of segment_if, element_if and composite_if (and _is_valid_code).  Prefer LARGE structural refactorings: one private helper per kind of check, early returns, merged duplicated blocks',
-    'B24': 'pyx12/error_handler.py: class err_handler (handle_errors, add_*_loop, close_*_loop, *_error, add_seg, add_ele, _add_cur_seg ...).  Prefer structural refactorings: table-driven dispatch in handle_errors, extracted helpers, early returns',
-    'B25': 'pyx12/error_999.py and pyx12/error_997.py: visit_seg, visit_ele, visit_st_pre/post, visit_gs_pre/post and the __get_*_errors helpers.  Prefer structural refactorings: shared helpers, table lookups, comprehension/loop conversions',
-    'B26': 'pyx12/x12context.py: classes X12DataNode and X12LoopDataNode (the tree API: get_value, set_value, exists, count, select, first, add_*, delete_*, copy, iterate_*).  Prefer structural refactorings: shared private helpers for the path resolution, early returns',
-    'B27': 'pyx12/validation.py and pyx12/syntax.py.  Prefer structural refactorings: table-driven month lengths, extracted helpers per note type / per data type, early returns',
-    'B28': 'pyx12/segment.py and pyx12/path.py.  Prefer structural refactorings: extracted helpers, merged duplicated code in get/get_value/set/is_*, early returns',
-    'B29': 'pyx12/rawx12file.py, pyx12/scripts/x12norm.py, pyx12/xmlx12_simple.py and pyx12/xmlwriter.py.  Prefer structural refactorings: extracted helpers, table lookups, loop restructuring',
-    'B30': 'pyx12/x12n_document.py (function x12n_document).  Prefer LARGE structural refactorings: split the body of the segment loop into private module functions (one for the control segments, one per trailer, one for the HTML/XML sinks), table-driven dispatch',
+    'B31': 'pyx12/error_html.py (class error_html, escape_html_chars, seg_str).  Structural refactorings: extracted helpers for the error blocks of gen_seg, table lookups, loop/comprehension conversions',
+    'B32': 'pyx12/x12xml.py, pyx12/x12xml_simple.py and pyx12/xmlwriter.py.  Structural refactorings: shared helpers for the element/composite rendering, early returns, loop restructuring',
+    'B33': 'pyx12/codes.py, pyx12/dataele.py and pyx12/map_index.py.  Structural refactorings: extracted loaders, comprehension/loop conversions, early returns, dict.get for try/except KeyError where equivalent',
+    'B34': 'pyx12/x12context.py: class X12ContextReader (iter_segments, _add_segment, the counter resets) and X12SegmentDataNode.  Structural refactorings: split iter_segments into private helpers (map selection, tree building), early returns',
+    'B35': 'pyx12/map_if.py: the constructors and lookup methods (map_if, loop_if, segment_if, element_if, composite_if __init__, getnodebypath, getnodebypath2, is_match, is_match_qual, get_child_node_by_idx/ordinal).  Structural refactorings: shared attribute-or-child-text accessor, extracted helpers, early returns',
+    'B36': 'pyx12/error_handler.py: the node classes err_node, err_root, err_isa, err_gs, err_st, err_seg, err_ele, err_iter, errh_list, errh_null.  Structural refactorings: shared base-class helpers, early returns, comprehension/loop conversions',
+    'B37': 'pyx12/x12file.py: class X12Writer (Write, Close, _popToLoop, _close_*, _write_*) and X12Reader.__iter__/cleanup.  Structural refactorings: table-driven trailer construction, merged _close_iea/_close_ge/_close_se, early returns',
+    'B38': 'pyx12/scripts/x12norm.py, pyx12/scripts/x12valid.py and pyx12/params.py.  Structural refactorings: extracted option parsing and per-file functions, early returns',
+    'B39': 'pyx12/map_walker.py (second pass: _check_seg_usage, _check_loop_usage, _flush_mandatory_segs, forceWalkCounterToLoopStart, pop_to_parent_loop, get_pop_loops/get_push_loops) and pyx12/syntax.py.  Structural refactorings of a different kind than splitting: merge, inline, invert, table-drive',
+    'B40': 'pyx12/segment.py (second pass: Segment.set, get, _parse_refdes, append, __init__, Composite.__init__/__setitem__) and pyx12/validation.py (match_re, not_match_re, is_valid_time, contains_control_character).  Structural refactorings: early returns, merged branches, table lookups',
 }
 
 
